@@ -10,7 +10,7 @@
 (*                         snapshot and delta wire forms (ints and bytes)  *)
 (*   family big     (C11, C09): cases at the real limits 1024 / 64 KiB     *)
 (***************************************************************************)
-EXTENDS SnapAlg, Json
+EXTENDS SnapChainOps, Json
 
 VARIABLE c
 Next == UNCHANGED c
@@ -98,8 +98,6 @@ InitPairOrderThorough ==
   \E ka \in OrderedSubsets(OKeys4), kb \in OrderedSubsets(OKeys4) :
     c = [op |-> "pair", A |-> OItems(ka, ODataA), B |-> OItems(kb, ODataB), osz |-> OszPairs(OszSmall)]
 
-SnapOfItems(its) == FoldLeft(LAMBDA f, it : (<<it.t, it.i>> :> it.d) @@ f, EmptySnap, its)
-OszOf(p) == FoldLeft(LAMBDA f, x : (x[1] :> x[2]) @@ f, EmptySnap, p)
 \* C09 on the model
 DeltaLaw == LET PA == SnapOfItems(c.A)
                 PB == SnapOfItems(c.B)
@@ -390,6 +388,55 @@ ReuseLaw == IF c.kind = "di" THEN TotalDeltaLaw ELSE TotalSnapLaw
 InitSnapReuse ==
   \E prev \in PrevSet, a \in BoundedSeq(AddOpt(STq, {0}, {<<7>>}), 2) :
     c = [op |-> "snap", adds |-> a, adds2 |-> BaseAdds2, probe |-> ProbesOf(STq \cup {U3}, {0, 1}), prev |-> prev]
+
+\* ------------------------------------------------------------------ family api (public helpers; attached to C10)
+\* key helpers over the 16-bit boundaries, UUID <-> item data for every length 0..6, item deltas with
+\* and without an old item (equal and differing lengths, wrapping), header words, enumeration order /
+\* announced lengths / look-ups for every insertion order, one delta written with two size tables
+ApiBnd == {0, 1, 16383, 16384, 32767, 32768, 65535}
+ApiCase(keys, kints, udata, dpairs, hw, items, adds) ==
+  [op |-> "api", keys |-> keys, kints |-> kints, udata |-> udata, dpairs |-> dpairs, hw |-> hw, items |-> items,
+   probe |-> << <<1, 7>>, <<4, 0>>, <<32769, 5>>, <<2, 2>>, <<0, 0>>, <<65535, 65535>> >>,
+   adds |-> adds, sprobe |-> ProbesOf(STq \cup {U3, <<3>>}, SIq), osz |-> OszPairs(OszSmall), osz2 |-> OszPairs((1 :> 1)), cap |-> 1]
+ApiNoHw == <<0, 0, 0>>
+ApiDPairs == SetToSeq({[b |-> b] : b \in UNION {Seqs(Vals3, n) : n \in 0..2}} \cup
+                      {[a |-> a, b |-> b] : a \in UNION {Seqs({1, MAX}, n) : n \in 0..2}, b \in UNION {Seqs({-1, MIN, MAX}, n) : n \in 0..2}})
+InitApi ==
+  \/ c = ApiCase(SetToSeq(ApiBnd \X ApiBnd), SetToSeq(Boundary \cup {-65536, -65537, 65537}), <<>>, <<>>, ApiNoHw, <<>>, <<>>)
+  \/ c = ApiCase(<<>>, <<>>, SetToSeq(UNION {Seqs({0, -1, MIN}, n) : n \in 0..3} \cup {U1, U2, U1 \o <<7>>, U2 \o <<0, 0>>}), ApiDPairs, ApiNoHw, <<>>, <<>>)
+  \/ \E hw \in UNION {Seqs({-1, 0, 1, MAX}, n) : n \in 0..3} : c = ApiCase(<<>>, <<>>, <<>>, <<>>, hw, <<>>, <<>>)
+  \/ \E ks \in OrderedSubsets(OKeys3), a \in BoundedSeq(AddOpt(STq, {0}, {<<MIN, 7>>}), 2) :
+       c = ApiCase(<<>>, <<>>, <<>>, <<>>, ApiNoHw, OItems(ks, ODataA), a)
+  \* the same key twice: the second add is refused, the first stays
+  \/ \E ks \in OrderedSubsets(OKeys3) : Len(ks) >= 1 /\ c = ApiCase(<<>>, <<>>, <<>>, <<>>, ApiNoHw, OItems(ks, ODataA) \o OItems(<<ks[1]>>, ODataB), <<>>)
+FromBe(b) == Join((IF b[1] >= 128 THEN b[1] - 256 ELSE b[1]) * 256 + b[2], b[3] * 256 + b[4])
+ApiLaw ==
+  /\ \A j \in 1..Len(c.keys) : KeyOfInt(KeyInt(c.keys[j])) = c.keys[j]
+  /\ \A j \in 1..Len(c.kints) : KeyInt(KeyOfInt(c.kints[j])) = c.kints[j]
+  /\ \A j \in 1..Len(c.udata) : Len(c.udata[j]) >= 4 =>
+        LET b == UuidBytes(c.udata[j]) IN
+        Len(b) = 16 /\ (\A q \in 1..16 : b[q] \in 0..255) /\
+        \A q \in 1..4 : FromBe(SubSeq(b, 4 * q - 3, 4 * q)) = c.udata[j][q]
+  /\ \A j \in 1..Len(c.dpairs) :
+        LET p == c.dpairs[j]
+            a == IF "a" \in DOMAIN p THEN Some(p.a) ELSE None
+            x == ItemDiff(a, p.b)
+        IN (x.ok = (~a.some \/ Len(a.d) = Len(p.b))) /\ (x.ok => ItemPatch(a, x.d) = [ok |-> TRUE, d |-> p.b])
+  \* the header decoders are the first stage of the parsers
+  /\ LET sh == SnapHeaderOf(c.hw) dh == DeltaHeaderOf(c.hw) IN
+     /\ (~sh.ok => ParseInts(c.hw) = Err(sh.e))
+     /\ (~dh.ok => ParseDelta(c.hw, FALSE, OszNone) = Err(dh.e))
+     /\ (dh.ok /\ ParseDelta(c.hw, FALSE, OszNone).ok => dh.warn \subseteq ParseDelta(c.hw, FALSE, OszNone).warn)
+  /\ LET rb == RawBuild(c.items)
+         R == rb.b.raw
+         D == Delta(EmptySnap, R)
+         t1 == OszOf(c.osz) t2 == OszOf(c.osz2)
+     IN /\ ToSet(SignedKeySeq(DOMAIN R)) = DOMAIN R /\ Len(SignedKeySeq(DOMAIN R)) = Cardinality(DOMAIN R)
+        /\ \A j \in 1..Len(c.items) : rb.outs[j] \in {"ok", "DuplicateKey"}
+        /\ \A k \in DOMAIN R : R[k] = c.items[CHOOSE j \in 1..Len(c.items) : <<c.items[j].t, c.items[j].i>> = k /\ \A q \in 1..(j - 1) : <<c.items[q].t, c.items[q].i>> # k].d
+        /\ ParseInts(WireInts(R)).ok /\ SameSnap(ParseInts(WireInts(R)).s, R)
+        /\ \A t \in {t1, t2} : Writable(D, t) =>
+             LET p == ParseDelta(DeltaWire(D, t), FALSE, t) IN p.ok /\ p.warn = {} /\ SameSnap(Apply(EmptySnap, p.d).s, R)
 
 \* ------------------------------------------------------------------ family big (real limits)
 \* n items of type ty (ids 0..n-1), lengths chosen so that the total number of data integers is `ints`
